@@ -549,7 +549,12 @@ func (g *gen) stepRandom() {
 		g.pendClose = g.pendClose[1:]
 		if g.s.clients[k[0]] != nil && !g.s.gone[k[0]] {
 			if g.batchReturnSafe(sn, k[0], []int{k[1]}, 0, true) {
-				g.do(fmt.Sprintf("CHCLOSEOK %d %d", k[0], k[1]))
+				if g.r.Chance(1, 7) {
+					// the client's own close crosses the broker's: it must be answered with close-ok
+					g.do(fmt.Sprintf("CHCLOSE %d %d", k[0], k[1]))
+				} else {
+					g.do(fmt.Sprintf("CHCLOSEOK %d %d", k[0], k[1]))
+				}
 				delete(g.outstanding, k)
 				if g.r.Chance(2, 3) {
 					g.do(fmt.Sprintf("CH %d %d", k[0], k[1]))
@@ -610,7 +615,9 @@ func (g *gen) stepRandom() {
 		var subs []string
 		n := 2 + g.r.Intn(3)
 		for j := 0; j < n; j++ {
-			switch g.r.Intn(6) {
+			switch g.r.Intn(7) {
+			case 6:
+				subs = append(subs, fmt.Sprintf("QDEL %d %d %s 0 0 0", c, h, g.existingQueue(sn)))
 			case 0:
 				subs = append(subs, fmt.Sprintf("QD %d %d %s 0 0 0 %s 0", c, h, g.pick(qnames), g.b(1, 3)))
 			case 1:
